@@ -3,4 +3,4 @@
 package postprocessor
 
 // C10 safety sweep of every function of the package that has no contract of its own.
-//@ sweepall C10 idx slice div assert
+//@ sweepall C10 idx slice div assert extnil
